@@ -160,6 +160,10 @@ def into_iter_any(v):
     raise Unsupported('into_iter of %r' % (type(v),))
 
 
+def ne_of(eq):
+    return lambda a, b: not eq(a, b)
+
+
 def box_new(x):
     # Box<T> = (Unique<T>(NonNull<T>(ptr)), alloc): MIR dereferences a Box through ((b.0).0 as *const T)
     return ((mkref(x),),)
